@@ -398,6 +398,43 @@ macro_rules! dump {
         }
     };
 }
+/// C10 through the real 18-stream sequence: the destination dies at a symbolic call; whatever
+/// arrived must be a consistent truncated minidump (catches a generate_dump that emits an entry
+/// before flushing its stream, which the DirSection-only harnesses cannot see).
+fn run_crash(app_regions: usize) {
+    reset([false; 12]);
+    let mut cfg = MinidumpWriter::new(4242, 4243);
+    if app_regions == 1 {
+        cfg.app_memory.push(AppMemory { ptr: kani::any(), length: 8 });
+    }
+    let init = [0u8; DEST];
+    let mut dest = ArrDest::<DEST>::new(init, 0);
+    let at: usize = kani::any();
+    dest.crash_at = at;
+    let res = cfg.dump(&mut dest);
+    if res.is_err() {
+        core::mem::forget(res);
+        panic!("dump failed although the destination never reported an error");
+    }
+    let received = dest.high_water;
+    let dir_end = 32 + 12 * NSLOTS;
+    if received >= dir_end {
+        assert_eq!(rd_u32(&dest.data, 0), 0x504d_444d, "header present");
+        assert_eq!(rd_u32(&dest.data, 8) as usize, NSLOTS);
+        let slot: usize = kani::any();
+        kani::assume(slot < NSLOTS);
+        let e = 32 + 12 * slot;
+        let (ty, size, rva) = (rd_u32(&dest.data, e), rd_u32(&dest.data, e + 4) as usize, rd_u32(&dest.data, e + 8) as usize);
+        if ty != 0 || size != 0 || rva != 0 {
+            assert!(rva + size <= received, "a directory entry in the destination refers only to bytes already there");
+        }
+        kani::cover!(ty != 0 && at < dest.ops, "an entry arrived before the cut");
+        kani::cover!(ty == 0 && received > dir_end && at < dest.ops, "an unused entry while stream bytes are present");
+    }
+    kani::cover!(at >= dest.ops, "no cut");
+    core::mem::forget(res);
+    core::mem::forget(cfg);
+}
 const NONE: [bool; 12] = [false; 12];
 const fn one(k: usize) -> [bool; 12] {
     let mut f = [false; 12];
@@ -411,6 +448,33 @@ const fn two(a: usize, b: usize) -> [bool; 12] {
     f
 }
 const ALL: [bool; 12] = [true; 12];
+macro_rules! dump_crash {
+    ($name:ident, $app:expr) => {
+        #[kani::proof]
+        #[kani::unwind(20)]
+        #[kani::stub(crate::linux::ptrace_dumper::PtraceDumper::new_report_soft_errors, crate::verif::c19_dump::stub_new_dumper)]
+        #[kani::stub(crate::linux::ptrace_dumper::PtraceDumper::suspend_threads, crate::verif::c19_dump::stub_suspend)]
+        #[kani::stub(crate::linux::ptrace_dumper::PtraceDumper::resume_threads, crate::verif::c19_dump::stub_resume)]
+        #[kani::stub(nix::sys::signal::kill, crate::verif::c19_dump::stub_kill)]
+        #[kani::stub(crate::linux::sections::thread_list_stream::write, crate::verif::c19_dump::stub_thread_list)]
+        #[kani::stub(crate::linux::sections::mappings::write, crate::verif::c19_dump::stub_mappings)]
+        #[kani::stub(crate::linux::sections::systeminfo_stream::write, crate::verif::c19_dump::stub_systeminfo)]
+        #[kani::stub(crate::linux::sections::memory_info_list_stream::write, crate::verif::c19_dump::stub_meminfo)]
+        #[kani::stub(crate::linux::sections::thread_names_stream::write, crate::verif::c19_dump::stub_thread_names)]
+        #[kani::stub(crate::linux::sections::handle_data_stream::write, crate::verif::c19_dump::stub_handles)]
+        #[kani::stub(crate::linux::dso_debug::write_dso_debug_stream, crate::verif::c19_dump::stub_dso_debug)]
+        #[kani::stub(crate::linux::minidump_writer::MinidumpWriter::write_file, crate::verif::c19_dump::stub_write_file)]
+        #[kani::stub(crate::linux::minidump_writer::write_soft_errors, crate::verif::c19_dump::stub_soft_errors)]
+        #[kani::stub(crate::linux::ptrace_dumper::PtraceDumper::copy_from_process, crate::verif::env::stub_copy_from_process)]
+        #[kani::stub(std::time::SystemTime::now, crate::verif::c19_dump::stub_now)]
+        #[kani::stub(std::fmt::format, crate::verif::env::stub_format)]
+        #[kani::stub(std::vec::Vec::resize, crate::verif::env::stub_vec_resize)]
+        fn $name() {
+            run_crash($app);
+        }
+    };
+}
+dump_crash!(c10_dump_crash_anywhere, 1);
 dump!(c19_dump_fresh, NONE, false, 1, false);
 dump!(c19_dump_reused_writer, NONE, true, 1, false);
 dump!(c19_dump_reused_no_app, NONE, true, 0, false);
